@@ -120,7 +120,7 @@ theorem consumerDown_busy {s : St} (h : SInv s) (hb : Busy s) (hp : Live s) (cfg
           have hb3 : Busy (drainDone { s with cons := s.cons.map f, stops := s.stops.filter fun (c : StopCo) => !c.drain.pending.contains cid }
             { co.drain with pending := co.drain.pending.filter (· != cid) } ok).1 :=
             busy_congr hb c4 c3 c5 c2 (fun t ht _ => by rw [c7]; exact ht)
-          exact busy_of_call (stopCall_res h3.toWInv cfg co.err co.user (rd_idle h3) h3.hb_has) hb3
+          exact busy_of_call (stopLoop_res h3.toWInv cfg co.err co.user (rd_idle h3) h3.hb_has) hb3
     · exact hb1
 
 theorem step_busy {s : St} (h : SInv s) (hb : Busy s) (cfg : Cfg) (e : Ev) (hne : nonKafkaEscape e = false) :
@@ -165,9 +165,14 @@ theorem step_busy {s : St} (h : SInv s) (hb : Busy s) (cfg : Cfg) (e : Ev) (hne 
           · rename_i hs; exact busy_stopping (s := { s with jpc := .idle, rejoinD := false }) hs
           · unfold prepare
             split
+            · exact busy_rd (s := { s with coordBroker := true, jpc := .hang }) hrd
+            split
             · exact afterPrepare_busy (s := { s with coordBroker := true }) hrd
-            · show Busy { (beginDrain { s with coordBroker := true }).1 with jpc := .prepare, prep := (beginDrain { s with coordBroker := true }).2.2 }
-              exact busy_rd (by simp [hrd])
+            · simp only []
+              split
+              · simp only [andThen_fst]
+                exact afterPrepare_busy (by rw [(drainDone_ctl _ _ _).2.1]; exact hrd)
+              · exact busy_rd (s := { (beginDrain { s with coordBroker := true }).1 with jpc := .prepare, prep := (beginDrain { s with coordBroker := true }).2.2 }) (by simp [hrd])
     | joinDone r =>
       simp only [step]; split
       · exact hb
@@ -250,8 +255,14 @@ theorem step_busy {s : St} (h : SInv s) (hb : Busy s) (cfg : Cfg) (e : Ev) (hne 
         · exact busy_congr hb rfl rfl rfl rfl (fun _ ht _ => ht)
         · exact (busy'_of_err (rejoinAfterError_res w cfg e hri h.hb_has)).busy
       · exact hb
-    | fire id =>
+    | consumerQuirk cid q =>
       simp only [step]; split
+      · exact busy_congr hb rfl rfl rfl rfl (fun _ ht _ => ht)
+      · exact hb
+    | fire id hbNext =>
+      simp only [step]; split
+      · exact hb
+      split
       · exact hb
       · rename_i t rest hf
         have htm : t ∈ s.timers ∧ t.id = id := by
